@@ -101,13 +101,18 @@ TypesExtraC == {TShort, TSChar, Arr(TUChar, 2), Arr(TCStr("bytes"), 2), Struct("
                 Struct("S6", <<"u", "w">>, <<U1, TInt>>), Arr(Arr(TDouble, 1), 3), CharArr(2)}
 TypesExtraCpp == {SM, CppList(Vec(TInt)), CppList(Pair(TInt, TDouble)), CppSet(Pair(TInt, TInt)), UMap(TShort, Vec(TDouble)),
                   Map(TInt, Map(TInt, TInt)), Vec(CppList(TUChar)), Vec(CppSet(TInt)), Pair(Pair(TInt, TInt), Pair(TDouble, TInt)),
-                  Map(Pair(TInt, TInt), TInt), Vec(Arr(TInt, 2)), UMap(TInt, TString("bytes")), USet(TString("bytes"))}
+                  Map(Pair(TInt, TInt), TInt), Arr(Pair(TInt, TInt), 2), UMap(TInt, TString("bytes")), USet(TString("bytes"))}
 TypesModeExtra(md) == {CppList(TString(md)), UMap(TString(md), TString(md)), Vec(Pair(TString(md), TInt)), Arr(TCStr(md), 2),
                        Map(TInt, Vec(TString(md)))}
 TypesU8X == TypesModeExtra("u8")
 TypesAsciiX == TypesModeExtra("ascii")
-AllQuick == TypesC \cup TypesCppA \cup TypesCppB \cup TypesCppC \cup TypesU8 \cup TypesAscii
-AllThorough == AllQuick \cup TypesExtraC \cup TypesExtraCpp \cup TypesU8X \cup TypesAsciiX
+\* the configurations: two model checking runs in the quick tier, four in the thorough tier
+QuickA == TypesC \cup TypesCppA \cup TypesU8
+QuickB == TypesCppB \cup TypesCppC \cup TypesAscii
+ThorC == TypesExtraC \cup TypesU8X \cup TypesAsciiX
+ThorD == TypesExtraCpp
+AllQuick == QuickA \cup QuickB
+AllThorough == AllQuick \cup ThorC \cup ThorD
 
 ---------------------------------------------------------------------------
 (* Python values.  Field names are chosen so that TLC can always compare two *)
@@ -514,13 +519,13 @@ LocalFaults(T, v, lvl) ==
          \cup {Fault([v EXCEPT !.d = Append(v.d, <<PName(T.f[i]), CHOOSE g \in Good(T.a[i], 2) : TRUE>>)], T, "two-members", lvl)
                : i \in {j \in 1..Len(T.f) : PName(T.f[j]) # v.d[1][1]}}
 
-RECURSIVE Faulty(_, _, _)
+RECURSIVE Faulty(_, _, _), ChildFaults(_, _, _)
 \* faults inside element i of a sequence-like value
 LiftE(v, i, f) == [f EXCEPT !.v = [v EXCEPT !.e[i] = f.v], !.path = <<i>> \o f.path]
 LiftK(v, i, f) == [f EXCEPT !.v = [v EXCEPT !.d[i] = <<f.v, v.d[i][2]>>], !.path = <<i, 1>> \o f.path]
 LiftV(v, i, f) == [f EXCEPT !.v = [v EXCEPT !.d[i] = <<v.d[i][1], f.v>>], !.path = <<i, 2>> \o f.path]
-Faulty(T, v, lvl) ==
-  LocalFaults(T, v, lvl) \cup
+Faulty(T, v, lvl) == LocalFaults(T, v, lvl) \cup ChildFaults(T, v, lvl)
+ChildFaults(T, v, lvl) ==
   CASE T.t \in SeqTypes \cup SetTypes \cup {"array", "pair"} /\ v.k \in {"list", "tuple", "gen", "set"} ->
          UNION {{LiftE(v, i, f) : f \in {g \in Faulty(ElemTy(T.a, i), v.e[i], lvl + 1) : v.k # "set" \/ Hashable(g.v)}} : i \in 1..Len(v.e)}
     [] T.t = "chararray" /\ v.k = "list" /\ v.e[T.n].n = 0 ->      \* (keeps the terminating NUL: one root cause per case)
@@ -544,24 +549,19 @@ Init == ph = "type" /\ ty = NoTy /\ val = Nil /\ fault = NoFault /\ want = Err("
 PickType == /\ ph = "type"
             /\ \E T \in TypeSet : ty' = T
             /\ ph' = "value" /\ UNCHANGED <<val, fault, want, pred>>
-PickGood == /\ ph = "value" /\ ~TypesOnly
-            /\ \E g \in Good(ty, 0) : val' = g
-            /\ ph' = "ready" /\ UNCHANGED <<ty, fault, want, pred>>
-InjectAt(top) == /\ ph = "ready" /\ fault = NoFault
-                 /\ \E f \in Faulty(ty, val, 0) :
-                      /\ (f.path = <<>>) = top
-                      /\ val' = f.v /\ fault' = [at |-> f.at, fk |-> f.fk, bad |-> f.bad, depth |-> f.depth, path |-> f.path]
-                 /\ UNCHANGED <<ph, ty, want, pred>>
-InjectTop == ph = "ready" /\ InjectAt(TRUE)
-InjectNested == ph = "ready" /\ InjectAt(FALSE)
 Same(a, b) == a.ok = b.ok /\ a.exc = b.exc /\ a.x = b.x
-Convert(accept, agree) ==
-  /\ ph = "ready"
-  /\ LET w == RoundTrip(ty, val, FALSE)
-         p == RoundTrip(ty, val, TRUE)
-     IN /\ w.ok = accept /\ Same(w, p) = agree
-        /\ want' = w /\ pred' = p
-  /\ ph' = "done" /\ UNCHANGED <<ty, val, fault>>
+\* a value enters the "ready" phase together with its two outcomes
+Ready(v) == val' = v /\ want' = RoundTrip(ty, v, FALSE) /\ pred' = RoundTrip(ty, v, TRUE)
+PickGood == /\ ph = "value" /\ ~TypesOnly
+            /\ \E g \in Good(ty, 0) : Ready(g)
+            /\ ph' = "ready" /\ UNCHANGED <<ty, fault>>
+Inject(fs) == /\ \E f \in fs :
+                   /\ Ready(f.v) /\ fault' = [at |-> f.at, fk |-> f.fk, bad |-> f.bad, depth |-> f.depth, path |-> f.path]
+              /\ UNCHANGED <<ph, ty>>
+InjectTop == ph = "ready" /\ fault = NoFault /\ Inject(LocalFaults(ty, val, 0))       \* the whole value is wrong
+InjectNested == ph = "ready" /\ fault = NoFault /\ Inject(ChildFaults(ty, val, 0))  \* something inside it is
+Convert(accept, agree) == /\ want.ok = accept /\ Same(want, pred) = agree
+                          /\ ph' = "done" /\ UNCHANGED <<ty, val, fault, want, pred>>
 Accept == ph = "ready" /\ Convert(TRUE, TRUE)
 Reject == ph = "ready" /\ Convert(FALSE, TRUE)
 AcceptDev == ph = "ready" /\ Convert(TRUE, FALSE)       \* a valid value that the implementation-shaped model does not round-trip
